@@ -182,3 +182,35 @@ def sequence_rows():
         out.append((name, not bad, (f"after {'; '.join(steps[:steps.index(bad[0][0])])}: {bad[0][0]} compiled gives {bad[0][1]}, interpreted {bad[0][2]}") if bad
                     else f"{len(steps)} steps agree"))
     return out
+
+
+def replay_guard_kinds(inputs, obl):
+    """the call-time admission test of the REAL tree on a battery of value kinds (bounded): admitting anything but an exact int / float
+    or an ndarray lets compiled code run on a kind it is not valid for (confirmed, with the value); refusing an admitted kind only
+    selects the interpreter, which is harmless"""
+    import numpy as np
+    from klongpy import KlongInterpreter
+    from klongpy.core import KGChar, KGSym, KLONG_UNDEFINED
+    k = KlongInterpreter()
+    if not hasattr(k, '_compiled_for'):
+        return {'confirmed': False, 'detail': 'no _compiled_for on the interpreter', 'battery': None}
+    k('f::{x}')
+    battery = [('int', 3, True), ('float', 2.5, True), ('int array', np.array([1, 2]), True), ('real matrix', np.array([[1.5, 2.0]]), True), ('empty array', np.array([]), True),
+               ('bool', True, False), ('np.float64', np.float64(2.5), False), ('np.int64', np.int64(3), False), ('np.bool_', np.bool_(True), False),
+               ('string', 'ab', False), ('character', KGChar('a'), False), ('symbol', KGSym('s'), False), ('python list', [1, 2], False), ('tuple', (1, 2), False),
+               ('None', None, False), ('undefined', KLONG_UNDEFINED, False), ('dictionary', {1: 2}, False), ('function', k._context[KGSym('f')], False),
+               ('complex', 1j, False)]
+    wrong, narrower = [], []
+    for name, v, want in battery:
+        for args in ([v], [1, v], [v, np.array([1.0])]):
+            got = bool(k._compiled_for(args))
+            if got and not want:
+                wrong.append(f"{name} ({type(v).__name__}) admitted in {len(args)}-argument call")
+            elif want and not got:
+                narrower.append(name)
+    if not k._compiled_for([]):
+        narrower.append('no arguments')
+    if wrong:
+        return {'confirmed': True, 'detail': 'the guard admits: ' + '; '.join(sorted(set(wrong))[:4]), 'battery': len(battery)}
+    return {'confirmed': False, 'detail': f"on {len(battery)} value kinds the guard admits only exact int / float / ndarray" +
+            (f" (and refuses {sorted(set(narrower))}: interpreter path, harmless)" if narrower else ''), 'battery': len(battery)}
